@@ -18,7 +18,12 @@ def cases(rng, tier):
         st = stepgen.random_state(rng, t, thumb=(kind != 'arm'), mode=0b10000, mpu=rng.random() < 0.15)
         if kind == 'arm':
             w = stepgen.random_arm_word(rng)
-            if rng.random() < 0.3:     # MSR / CPS / SRS / RFE / exception-return shaped words
+            if rng.random() < 0.15:    # SRS to every mode's stack, all four addressing modes, with and without write-back
+                w = 0xF84D0500 | (rng.getrandbits(2) << 23) | (rng.getrandbits(1) << 21) | rng.choice([17, 18, 19, 23, 27, 22, 31])
+                if rng.random() < 0.7:
+                    for i in range(18, 26):     # point the banked stack pointers into mapped memory
+                        st['R'][i] = 0x1080
+            elif rng.random() < 0.3:     # MSR / CPS / SRS / RFE / exception-return shaped words
                 w = rng.choice([0xE12FF000 | rng.getrandbits(4), 0xE169F000 | rng.getrandbits(4), 0xF1080000 | rng.getrandbits(9),
                                 0xF10C0000 | rng.getrandbits(9), 0xE1B0F00E, 0xE8FD8000 | rng.getrandbits(15), 0xF8BD0A00,
                                 0xF96D0500 | rng.getrandbits(5), 0xEE010F10 | (rng.getrandbits(3) << 5), 0xE1600070 | rng.getrandbits(4)])
